@@ -95,6 +95,7 @@ def gen_case(rng, k):
     decl_vs = []
     c.notes = []
     shared = None
+    macro_ty = None
     for vi in range(nvar):
         kind = rng.choice(["unnamed", "named", "named"])
         n = rng.choice([1, 1, 2, 2, 3])
@@ -205,8 +206,16 @@ def gen_case(rng, k):
                 pass
             formatted |= mentioned(fs[0]["ty"], params)
             c.notes.append("implicit")
-        body = (" { %s }" % ", ".join("%s%s: %s" % (f["fattr"], f["name"], f["ty"]) for f in fs)) if kind == "named" else \
-            "(%s)" % ", ".join(f["fattr"] + f["ty"] for f in fs)
+        # one field type may arrive through a `$t:ty` macro fragment: the derive then sees it inside a None-delimited
+        # group (syn::Type::Group), which has to be looked through like a parenthesised type
+        shown = [f["ty"] for f in fs]
+        if macro_ty is None and rng.random() < 0.15:
+            mf = rng.randrange(len(fs))
+            macro_ty = fs[mf]["ty"]
+            shown[mf] = "$mt"
+            c.notes.append("macro-ty-fragment")
+        body = (" { %s }" % ", ".join("%s%s: %s" % (f["fattr"], f["name"], t) for f, t in zip(fs, shown))) if kind == "named" else \
+            "(%s)" % ", ".join(f["fattr"] + t for f, t in zip(fs, shown))
         decl_vs.append((own_attr, body, kind))
     shared_attr = ""
     if is_enum and rng.random() < 0.4 and trait != "Debug":
@@ -225,7 +234,13 @@ def gen_case(rng, k):
         formatted.add(pv)
     bounds = ""
     if user_bounded:
-        bounds = "#[%s(bound(%s))] " % (attr_name, ", ".join("%s: core::fmt::%s" % (ty, tr) for (ty, tr) in sorted(user_bounded)))
+        preds = ["%s: core::fmt::%s" % (ty, tr) for (ty, tr) in sorted(user_bounded)]
+        if len(preds) > 1 and rng.random() < 0.6:
+            # several bound(...) attributes on one item (documented): every one of them has to reach the where-clause
+            bounds = "".join("#[%s(%s(%s))] " % (attr_name, rng.choice(["bound", "bounds"]), p) for p in preds)
+            c.notes.append("user-bound-split")
+        else:
+            bounds = "#[%s(bound(%s))] " % (attr_name, ", ".join(preds))
         c.notes.append("user-bound")
     # make sure every parameter is used by some field (rustc E0392): add a PhantomData tail field to the first variant
     gen = "<%s>" % ", ".join(params)
@@ -237,7 +252,7 @@ def gen_case(rng, k):
         c.decl = "#[derive(derive_more::%s)] %s%spub enum Ty%s { %s }" % (trait, bounds, shared_attr, gen, ", ".join(vs))
     else:
         own, body, kind = decl_vs[0]
-        used = mentioned(body, params)
+        used = mentioned(body + " " + (macro_ty or ""), params)
         missing = [p for p in params if p not in used]
         if missing:
             # keep unused parameters alive through an unformatted PhantomData field
@@ -252,6 +267,8 @@ def gen_case(rng, k):
                 formatted = set()
                 c.notes.append("no-field-formatted")
         c.decl = "#[derive(derive_more::%s)] %s%spub struct Ty%s%s%s" % (trait, bounds, own, gen, body, "" if kind == "named" else ";")
+    if macro_ty is not None:
+        c.decl = "macro_rules! mk%d { ($mt:ty) => { %s } } mk%d!(%s);" % (k, c.decl, k, macro_ty)
     c.trait = trait
     c.params = params
     c.formatted = formatted | {p for (ty, _) in user_bounded for p in mentioned(ty, params)}
